@@ -736,6 +736,51 @@ def rule_n12(ctx):
                   "created by __init__, filled by to_tree_prefix on self")
 
 
+def rule_n13(ctx):
+    """Traversals recurse into every sub-formula (sibling agreement over the Formula hierarchy): `transform` rebuilds a composite formula from the TRANSFORMED
+    sub-formulas, `accept` visits them.  A transformer that silently skips the body of one quantifier kind leaves sugar (XPath / free nonterminals) untranslated there."""
+    m = ctx.repo.module(LANG, "C09.N13")
+    composite = {"NegatedFormula": "args", "ConjunctiveFormula": "args", "DisjunctiveFormula": "args", "ForallFormula": "inner_formula", "ExistsFormula": "inner_formula",
+                 "ForallIntFormula": "inner_formula", "ExistsIntFormula": "inner_formula"}
+    n = 0
+    for cls, field in composite.items():
+        tr = m.get(f"{cls}.transform")
+        if not isinstance(tr, ast.FunctionDef):
+            raise Unrecognised("C09.N13", f"{LANG}:{cls}", "transform not found")
+        pname = tr.args.args[1].arg
+        t = " ".join(src(tr).split())
+        n += 1
+        if field == "inner_formula":
+            good = f"self.inner_formula.transform({pname})" in t
+            raw = [c for c in calls_in(tr) if call_name(c) == cls and any(src(a) == "self.inner_formula" for a in c.args)]
+            if good and not raw:
+                ctx.ok("N13-traversal-recurses", f"{LANG}:{cls}.transform", "body transformed", site(tr), f"self.inner_formula.transform({pname})")
+            elif raw:
+                ctx.viol("N13-traversal-recurses", f"{LANG}:{cls}.transform", "body transformed", site(raw[0]),
+                         f"{cls}.transform rebuilds the quantifier with the UNTRANSFORMED body `self.inner_formula`, unlike its sibling classes: transformers (e.g. the XPath / match-expression "
+                         "translation) never reach formulas below this quantifier kind, so sugar inside it keeps its untranslated meaning")
+            else:
+                raise Unrecognised("C09.N13", f"{LANG}:{cls}.transform", "treatment of inner_formula not understood")
+        else:
+            good = f"arg.transform({pname}) for arg in self.args" in t or f"self.args[0].transform({pname})" in t
+            if not good:
+                raw = "*self.args" in t or "self.args[0])" in t
+                if raw:
+                    ctx.viol("N13-traversal-recurses", f"{LANG}:{cls}.transform", "arguments transformed", site(tr), f"{cls}.transform passes its arguments on untransformed")
+                else:
+                    raise Unrecognised("C09.N13", f"{LANG}:{cls}.transform", "treatment of args not understood")
+            else:
+                ctx.ok("N13-traversal-recurses", f"{LANG}:{cls}.transform", "arguments transformed", site(tr), "every argument transformed")
+        ac = m.get(f"{cls}.accept")
+        if isinstance(ac, ast.FunctionDef):
+            t2 = " ".join(src(ac).split())
+            vn = ac.args.args[1].arg
+            rec = (f"self.inner_formula.accept({vn})" in t2) if field == "inner_formula" else (f".accept({vn})" in t2 and "self.args" in t2)
+            ctx.check(rec, "N13-traversal-recurses", f"{LANG}:{cls}.accept", "sub-formulas visited", site(ac), f"{cls}.accept does not visit its sub-formulas", "recurses")
+    if n < 7:
+        raise Unrecognised("C09.N13", LANG, "composite classes missing")
+
+
 def rule_n8(ctx):
     """Renaming / substitution maps are applied SIMULTANEOUSLY: no substitute_* method folds the map entry by entry over an accumulator
     (a chained map {v0 -> v1, v1 -> v2}, as ensure_unique_bound_variables produces, would collapse v0 and v1)."""
@@ -778,6 +823,7 @@ def run(ctx) -> str:
     ctx.guarded("N10", lambda: rule_n10(ctx))
     ctx.guarded("N11", lambda: rule_n11(ctx))
     ctx.guarded("N12", lambda: rule_n12(ctx))
+    ctx.guarded("N13", lambda: rule_n13(ctx))
     ctx.guarded("N7", lambda: rule_n7(ctx))
     ctx.guarded("N1", lambda: rule_n1(ctx))
     ctx.guarded("N2", lambda: rule_n2(ctx))
